@@ -57,7 +57,7 @@ def _with_ignores(node):
 class C02(Check):
     ID = 'C02'
     LEVEL = 'exploration'
-    BUDGET = {'quick': 30, 'thorough': 240}
+    BUDGET = {'quick': 75, 'thorough': 240}
     RULE = ('case = (context: roll w,s in 1..5 (both implementations) / split / time_split / group_by (up to 17 sparse keys) with an inner pipeline P from the typed generator - all '
             'stateful operators incl. scan family, first, last, take, distinct, distinct_until_changed, lag, pad_start/pad_end, start_with, batch, assert_1, tee_map zip/combine_latest/'
             'merge, nested group_by/roll/split/time_split -, optionally under an outer group_by with 2-3 interleaved keys; input 0..40 ints, long enough to wrap the roll slot ring '
@@ -78,7 +78,7 @@ class C02(Check):
     def generate(self, rng, tier, shard, nshards):
         n = 2200 if tier == 'quick' else 10 ** 7
         for k in range(n):
-            scale = (k % 120 == 60)
+            scale = (k % 120 == 6)
             opts = gen.GenOpts(max_depth=rng.choice([0, 1, 1, 2]) if not scale else 0, allow_progress=False, allow_empty_sensitive=True,
                                exclude_ops=('assert_',) if not scale else ('assert_', 'fvariance', 'fstddev'), ctx_weight=2, tee_weight=3, scale=scale)
             ctx = gen_ctx(rng, opts)
